@@ -42,7 +42,7 @@ def eid_of(pel):
     return pel['ph']['eid']
 
 
-@PROP.given('modes-agree', lambda tier: case_strategy(tier), quick=400, thorough=8000, shards_quick=8)
+@PROP.given('modes-agree', lambda tier: case_strategy(tier), quick=800, thorough=8000, shards_quick=8)
 def modes_agree(case, note):
     files = case['files']
     groups = R.pel_values.severityGroupValues
